@@ -37,6 +37,13 @@ pub fn scopes(rep: &Report, checks: Checks) {
     let nt3 = named_trees(3, 3, &pool3);
     run_structures(rep, "name-relation family 3: member names drawn from {a, a.a, a[0], b} (names that spell another node's path) x {NoSD, Top, All} x all selections", &nt3, &fixed_strategies, &cheap, checks, true);
     run_structures(rep, "path-spelling collisions: two objects with hidden content whose textual paths coincide (10 trees) x {NoSD, Top, All} x all selections", &path_collision_trees(), &fixed_strategies, &cheap, checks, true);
+    if !quick {
+        // thorough: the name-relation families one layer deeper (4 nodes), fixed strategies, all selections
+        let big1 = named_trees(4, 3, &["a", "ab", "abc", "b"]);
+        run_structures(rep, "thorough: name-prefix family on S(4,3) x {NoSD, Top, All} x all selections", &big1, &fixed_strategies, &cheap, checks, true);
+        let big3 = named_trees(4, 3, &["a", "a.a", "a[0]", "b"]);
+        run_structures(rep, "thorough: path-spelling family on S(4,3) x {NoSD, Top, All} x all selections", &big3, &fixed_strategies, &cheap, checks, true);
+    }
     // D3: pairs of special strings in one container
     let pairs = pair_alphabet_trees();
     run_structures(rep, "string-pair pass: every ordered pair of the string alphabet side by side in 5 container shapes x {Top, All, 2 Custom}", &pairs, &pair_strategies, &cheap, checks, false);
